@@ -874,6 +874,11 @@ class ContentElement(TTMLElement):
 
       for child_xml_element in xml_elem:
 
+        if issubclass(self.ttml_class, SetElement):
+          # <set> admits neither content nor animation children
+          LOGGER.warning("Child elements of <set> are ignored")
+          break
+
         if issubclass(self.ttml_class, RegionElement) and StyleElement.is_instance(child_xml_element):
           # process nest styling, which is specific to region elements, and does not affect temporal
           # processing
